@@ -45,6 +45,13 @@ MCPaths == {PathOf(ss) : ss \in UNION {[1..k -> Segs] : k \in 1..2}}
                   PathOf(<<<<97>>, <<98>>, <<>>>>),       \*  /a/b/
                   PathOf(<<<<97>>, <<>>, <<98>>>>),       \*  /a//b
                   PathOf(<<<<>>, <<97>>, <<98>>>>) }      \*  //a/b
+(* reduced pools for the quick exhaustive two-call export *)
+QTemplates == { <<Lit(<<97>>), Var(<<120>>)>>, <<Lit(<<97>>), Lit(<<98>>)>>, <<Var(<<121>>)>> }    \*  /a/{x}  /a/b  /{y}
+QMethods   == {"GET", "OPTIONS", "FOO"}
+QPaths     == { PathOf(<<<<97>>>>), PathOf(<<<<98>>>>), PathOf(<<<<97, 98>>>>), PathOf(<<<<>>>>),
+                PathOf(<<<<97>>, <<98>>>>), PathOf(<<<<97>>, <<49>>>>), PathOf(<<<<97>>, <<>>>>), PathOf(<<<<49>>, <<98>>>>),
+                PathOf(<<<<97, 98>>, <<98>>>>), PathOf(<<<<97>>, <<98>>, <<49>>>>), PathOf(<<<<97>>, <<49>>, <<98>>>>),
+                PathOf(<<<<97>>, <<98>>, <<>>>>), PathOf(<<<<97>>, <<>>, <<98>>>>), PathOf(<<<<>>, <<97>>, <<98>>>>) }
 OneTemplate == { <<Lit(<<97>>), Var(<<120>>)>> }     \*  /a/{x}
 FewPaths == { PathOf(<<<<97>>>>), PathOf(<<<<97>>, <<98>>>>), PathOf(<<<<98>>>>) }
 
